@@ -10,6 +10,11 @@
 #![allow(clippy::all, dead_code)]
 
 use super::*;
+// explicit imports: do not rely on what the parent module happens to import
+#[allow(unused_imports)]
+use std::net::SocketAddr;
+#[allow(unused_imports)]
+use tokio::sync::mpsc;
 use crate::daemon::config::NormalizedAddress;
 use crate::daemon::spawn::{SourceCreateParameters, SourceRemovalReason};
 use ntp_proto::ProtocolVersion;
